@@ -244,11 +244,19 @@ func (e *cborEncDriver[T]) writeNilOr(v byte) {
 }
 
 func (e *cborEncDriver[T]) writeNilArray() {
-	e.writeNilOr(cborBaseArray)
+	if e.h.NilCollectionToZeroLength {
+		e.WriteArrayEmpty() // honors IndefiniteLength, like every other empty array
+	} else {
+		e.w.writen1(cborBdNil)
+	}
 }
 
 func (e *cborEncDriver[T]) writeNilMap() {
-	e.writeNilOr(cborBaseMap)
+	if e.h.NilCollectionToZeroLength {
+		e.WriteMapEmpty() // honors IndefiniteLength, like every other empty map
+	} else {
+		e.w.writen1(cborBdNil)
+	}
 }
 
 func (e *cborEncDriver[T]) writeNilBytes() {
